@@ -474,7 +474,8 @@ def loud_category(stage, e):
     # loud failures of the pinned tree on sequences one might expect to work (reported, not violations: nothing is lost silently)
     if stage in ('boundary', 'interfaces', 'trimmed-group') and isinstance(e, ValueError) and msg == '':
         return 'subset-boundary-lookup'         # SubsetTopology.boundary looks edges up in the base boundary by transform (re-trimmed / simplex bases)
-    if stage in ('boundary', 'interfaces', 'trimmed-group') and isinstance(e, TypeError) and "unsupported operand type(s) for -=: 'MosaicReference'" in msg:
+    if stage in ('boundary', 'interfaces', 'trimmed-group') and isinstance(e, TypeError) and ("unsupported operand type(s) for -=: 'MosaicReference'" in msg
+                                                                                             or "unsupported operand type(s) for -=: 'WithChildrenReference'" in msg):
         return 'retrim-reference-arithmetic'
     if stage in ('trim', 'trimc') and isinstance(e, AssertionError) and 'leftover unmatched edges' in msg:
         return 'retrim-not-watertight'
